@@ -887,9 +887,12 @@ func (o *ovsdbClient) transact(ctx context.Context, dbName string, skipChWrite b
 // MonitorAll is a convenience method to monitor every table/column
 func (o *ovsdbClient) MonitorAll(ctx context.Context) (MonitorCookie, error) {
 	m := newMonitor()
-	for name := range o.primaryDB().model.Types() {
+	db := o.primaryDB()
+	db.modelMutex.RLock()
+	for name := range db.model.Types() {
 		m.Tables = append(m.Tables, TableMonitor{Table: name})
 	}
+	db.modelMutex.RUnlock()
 	return o.Monitor(ctx, m)
 }
 
